@@ -36,23 +36,34 @@ Inductive out :=
 
 (* does role `up` (true) / `down` (false) currently designate pin a? *)
 Definition role_is_a (s : sh) (role_up : bool) : bool := xorb role_up (swp s).
-Definition role_on (s : sh) (role_up : bool) : bool := if role_is_a s role_up then pa s else pb s.
+Definition pin_on (s : sh) (a : bool) : bool := if a then pa s else pb s.
+Definition role_on (s : sh) (role_up : bool) : bool := pin_on s (role_is_a s role_up).
 
-(* supla_esp_gpio_relay_hi(port of role, hi) for a relay that belongs to shutter idx *)
-Definition relay_hi (boot idx : Z) (s : sh) (now : Z) (role_up hi : bool) : sh * Z * list out :=
-  let t := u32 (boot + now) in                       (* unsigned int t = system_get_time(); *)
-  let a := role_is_a s role_up in
-  let o1 := if Bool.eqb (role_on s role_up) hi then []
-            else [OGpio idx (now + RELAY_PRE_US) (if a then 0 else 1) (if hi then 1 else 0)] in
+(* supla_esp_gpio_relay_hi(gpio of pin a/b, hi) for a relay that belongs to shutter idx, entered at true time
+   `now`:  t = system_get_time(); os_delay_us(PRE); write; [os_delay_us(RETRY); write;] stamps := t; os_delay_us(POST) *)
+Definition wp_sh (boot : Z) (s : sh) (now : Z) (a hi : bool) : sh :=
+  let t := u32 (boot + now) in
   let pa1 := if a then hi else pa s in
   let pb1 := if a then pb s else hi in
   let off := negb pa1 && negb pb1 in
-  let stored := if off then stop s =? 0 else start s =? 0 in
-  let start1 := if off then 0 else if start s =? 0 then t else start s in
-  let stop1 := if off then (if stop s =? 0 then t else stop s) else 0 in
-  let oz := if stored && (t =? 0) then [OZero idx now] else [] in
-  (mkSh pa1 pb1 (swp s) start1 stop1 (armed s) (due s) (seq s) (dval s) (blk s),
-   now + RELAY_PRE_US + RELAY_RETRY_US + RELAY_POST_US, o1 ++ oz).
+  mkSh pa1 pb1 (swp s)
+       (if off then 0 else if start s =? 0 then t else start s)
+       (if off then (if stop s =? 0 then t else stop s) else 0)
+       (armed s) (due s) (seq s) (dval s) (blk s).
+Definition wp_stored (s : sh) (a hi : bool) : bool :=
+  let pa1 := if a then hi else pa s in
+  let pb1 := if a then pb s else hi in
+  if negb pa1 && negb pb1 then stop s =? 0 else start s =? 0.
+Definition wp_edge (idx : Z) (s : sh) (now : Z) (a hi : bool) : list out :=
+  if Bool.eqb (pin_on s a) hi then []
+  else [OGpio idx (now + RELAY_PRE_US) (if a then 0 else 1) (if hi then 1 else 0)].
+Definition wp_zero (boot idx : Z) (s : sh) (now : Z) (a hi : bool) : list out :=
+  if wp_stored s a hi && (u32 (boot + now) =? 0) then [OZero idx now] else [].
+Definition wp_now (now : Z) : Z := now + RELAY_PRE_US + RELAY_RETRY_US + RELAY_POST_US.
+Definition write_pin (boot idx : Z) (s : sh) (now : Z) (a hi : bool) : sh * Z * list out :=
+  (wp_sh boot s now a hi, wp_now now, wp_edge idx s now a hi ++ wp_zero boot idx s now a hi).
+Definition relay_hi (boot idx : Z) (s : sh) (now : Z) (role_up hi : bool) : sh * Z * list out :=
+  write_pin boot idx s now (role_is_a s role_up) hi.
 
 Definition disarm (s : sh) : sh :=
   mkSh (pa s) (pb s) (swp s) (start s) (stop s) false (due s) (seq s) (dval s) (blk s).
@@ -315,7 +326,7 @@ Fixpoint run_wire (og : bool) (boot late : Z) (s : st) (ws : list wire) : list o
 Definition main_wire_og (og : bool) (ws : list wire) : list wire :=
   match ws with
   | (k, a, _) :: r =>
-      if k =? 0 then
+      if (k =? 0) && (arg a 3 =? 0) then
         let boot := arg a 0 in let n := arg a 1 in let late := arg a 2 in
         map wire_of_out (init_outs boot n 0 ++ run_wire og boot late (init boot n 0) r)
       else []
